@@ -20,39 +20,68 @@ class BadWord(Exception):
     pass
 
 
+def next_pin(pts, ch, word=""):
+    """the pin that letter ch adds to the points placed so far (pts[0] is the origin)"""
+    xs, ys = [p[0] for p in pts], [p[1] for p in pts]
+    if ch in QUADS:
+        sx, sy = QSIGN[ch]
+        x = max(xs) + 1 if sx > 0 else min(xs) - 1
+        y = max(ys) + 1 if sy > 0 else min(ys) - 1
+    else:
+        if len(pts) < 2:
+            raise BadWord(word)
+        lx, ly = pts[-1]
+        exs, eys = xs[:-1], ys[:-1]
+        if ch in VERT:
+            if lx > max(exs):
+                x = (2 * lx + max(exs)) / 3
+            elif lx < min(exs):
+                x = (2 * lx + min(exs)) / 3
+            else:
+                raise BadWord(word)
+            y = max(ys) + 1 if ch == "U" else min(ys) - 1
+        else:
+            if ly > max(eys):
+                y = (2 * ly + max(eys)) / 3
+            elif ly < min(eys):
+                y = (2 * ly + min(eys)) / 3
+            else:
+                raise BadWord(word)
+            x = max(xs) + 1 if ch == "R" else min(xs) - 1
+    return (x, y)
+
+
 @functools.lru_cache(maxsize=100000)
 def place(word):
     """list of pins (x, y) for p1..pn"""
     pts = [(F(0), F(0))]
     for ch in word:
-        xs, ys = [p[0] for p in pts], [p[1] for p in pts]
-        if ch in QUADS:
-            sx, sy = QSIGN[ch]
-            x = max(xs) + 1 if sx > 0 else min(xs) - 1
-            y = max(ys) + 1 if sy > 0 else min(ys) - 1
-        else:
-            if len(pts) < 2:
-                raise BadWord(word)
-            lx, ly = pts[-1]
-            exs, eys = xs[:-1], ys[:-1]
-            if ch in VERT:
-                if lx > max(exs):
-                    x = (2 * lx + max(exs)) / 3
-                elif lx < min(exs):
-                    x = (2 * lx + min(exs)) / 3
-                else:
-                    raise BadWord(word)
-                y = max(ys) + 1 if ch == "U" else min(ys) - 1
-            else:
-                if ly > max(eys):
-                    y = (2 * ly + max(eys)) / 3
-                elif ly < min(eys):
-                    y = (2 * ly + min(eys)) / 3
-                else:
-                    raise BadWord(word)
-                x = max(xs) + 1 if ch == "R" else min(xs) - 1
-        pts.append((x, y))
+        pts.append(next_pin(pts, ch, word))
     return tuple(pts[1:])
+
+
+@functools.lru_cache(maxsize=None)
+def pin_perms(n):
+    """the set of pin permutations of length n (permutations of some pin word), by depth-first extension of placements"""
+    out = set()
+
+    def grow(pts, last):
+        if len(pts) == n + 1:
+            out.add(perm_of_points(pts[1:]))
+            return
+        for ch in QUADS + DIRS:
+            if last and ((last in VERT and ch in VERT) or (last in HORI and ch in HORI)):
+                continue
+            if len(pts) == 1 and ch not in QUADS:
+                continue
+            try:
+                q = next_pin(pts, ch)
+            except BadWord:
+                continue
+            grow(pts + [q], ch)
+
+    grow([(F(0), F(0))], "")
+    return frozenset(out)
 
 
 def perm_of_points(pts):
